@@ -11,6 +11,7 @@ import CassisModel.Model.Index
 import CassisModel.Model.Heap
 import CassisModel.Model.Cas
 import CassisModel.Model.Traverse
+import CassisModel.Model.Merge
 import CassisModel.Gen.Builtins
 import CassisModel.Spec.BuiltinChecks
 
@@ -210,6 +211,13 @@ def runOp (j : Json) : M Json := do
     let w ← get
     set { w with tss := w.tss.push (if doc then Gen.builtinTS else Gen.builtinTSNoDoc) }
     pure (jOk (jNat w.tss.size))
+  | "ts.merge" =>
+    let idxs ← liftP (do natList (← fld j "inputs"))
+    let inputs ← idxs.mapM getTs
+    res (TS.merge K Gen.builtinTS inputs) fun ts' => do
+      let w ← get
+      set { w with tss := w.tss.push ts' }
+      pure (jOk (jNat w.tss.size))
   | "ts.create_type" =>
     let ti ← liftP (fldNat j "ts")
     let ts ← getTs ti
@@ -270,6 +278,17 @@ def runOp (j : Json) : M Json := do
     | "is_primitive" =>
       let n ← liftP (fldStr j "name")
       res (TS.getType ts n) fun t => pure (jOk (Json.bool (TS.isPrimitive K ts t.name)))
+    | "dump" =>
+      -- name-keyed canonical content of the type system (registry order is not part of it)
+      let recs := ts.types.map (fun t =>
+        (t.name, Json.mkObj [
+          ("super", jOptStr t.super),
+          ("children", jList jStr (t.children.toArray.qsort (· < ·)).toList),
+          ("own", jList jFeature t.own),
+          ("eff", jList (fun f : TS.Feature => Json.arr #[jStr f.name, jStr f.range, jOptStr f.elem])
+                    ((TS.allFeatures t).toArray.qsort (fun a b => a.name < b.name)).toList),
+          ("descr", jOptStr t.descr)]))
+      pure (jOk (Json.mkObj recs))
     | "identity" => pure (jOk (Json.bool true))   -- types are names in the model: holds by construction
     | "types" =>
       let b ← liftP (boolD j "built_in" false)
